@@ -163,8 +163,9 @@ def check_property(pid, tier, seed):
         jobs = []
         total_splits = 0
         per_h = {}
+        only = os.environ.get('VERIF_ONLY')          # debugging aid: restrict a run to one harness of the property (not used by registered commands)
         for name, H in hmod.HARNESSES.items():
-            splits = H.splits(tier)
+            splits = H.splits(tier) if (not only or only == name) else []
             per_h[name] = {'splits': len(splits), 'confirmed': 0, 'paths': 0, 'refuted': 0, 'unknown': 0,
                            'solver_n': 0, 'solver_t': 0.0, 'wall_cpu': 0.0, 'wit': collections.Counter(),
                            'twin_ok': 0, 'twin_paths': 0, 'functions': set(), 'doc': H.doc, 'bounds': H.bounds,
